@@ -46,10 +46,56 @@ def work(tier, seed):
     for n in (ot.LADDER_QUICK if tier == "quick" else ot.LADDER_THOROUGH):
         for tf in (True, False):
             items.append({"ladder": n, "tie_free": tf, "scalars": False, "small_easy": True})
+    # every class size in a contiguous range: whether a rescaled target of exactly 1 survives the floating-point
+    # arithmetic depends on the size itself (49, 98, 103, 107, 161, ... are the known bad ones for x*(1/x))
+    top = 260 if tier == "quick" else 2100
+    for lo_ in range(1, top + 1, 20):
+        items.append({"sizes": [lo_, min(top, lo_ + 19)]})
     return items
 
 
+def _run_sizes(item, ctx):
+    import math
+
+    import numpy as np
+    from score_analysis import Scores
+
+    lo_, hi_ = item["sizes"]
+    tg = np.array(tc.EXTREME_TARGETS)
+    for n in range(lo_, hi_ + 1):
+        big = [0.5 * i for i in range(n)]
+        for which in ("pos", "neg"):
+            pos, neg = (big, [0.25, 3.25]) if which == "pos" else ([0.25, 3.25], big)
+            for cfg in ot.CFGS:
+                for ep, en in ((0, 0), (3, 0), (0, 3), (n, 1)):
+                    s = Scores(pos, neg, nb_easy_pos=ep, nb_easy_neg=en, score_class=cfg[0], equal_class=cfg[1])
+                    ctx.state()
+                    for metric in tc.METRICS:
+                        M = getattr(s, metric)
+                        lo_m, hi_m = sorted((float(M(-math.inf)), float(M(math.inf))))
+                        for method in tc.METHODS:
+                            t = np.asarray(getattr(s, "threshold_at_" + metric)(tg, method=method), dtype=float)
+                            got = np.asarray(M(t), dtype=float)
+                            ctx.tick(len(tg))
+                            ctx.nontrivial(len(tg))
+                            want = np.where(tg <= 0.0, lo_m, hi_m)
+                            if not np.array_equal(got, want):
+                                k = int(np.argmax(got != want))
+                                ctx.fail("extreme-exact", {"class_size": n, "big_class": which, "cfg": cfg, "easy": [ep, en],
+                                                           "metric": metric, "r": float(tg[k]), "method": method},
+                                         observed={"t": float(t[k]), "metric_at_t": float(got[k])}, expected={"metric": float(want[k])},
+                                         snippet=("from score_analysis import Scores\n"
+                                                  f"s = Scores([0.5 * i for i in range({n})], [0.25, 3.25], nb_easy_pos={ep}, nb_easy_neg={en}, "
+                                                  f"score_class={cfg[0]!r}, equal_class={cfg[1]!r})  # big class: {which}\n"
+                                                  f"t = s.threshold_at_{metric}({float(tg[k])!r}, method={method!r}); print(t, s.{metric}(t))\n"))
+                                break
+    ctx.sample({"sizes": item["sizes"], "targets": tc.EXTREME_TARGETS})
+    return None
+
+
 def run(item, ctx, tier, seed):
+    if "sizes" in item:
+        return _run_sizes(item, ctx)
     b = bounds(tier)
     easy = [tuple(e) for e in b["easy"]]
     if item.get("small_easy"):  # dtype / sign variants: the square of small counts only
